@@ -9,6 +9,7 @@ import (
 	"io/fs"
 	"math"
 	"os"
+	"sort"
 	"strings"
 	"testing"
 
@@ -296,6 +297,7 @@ func TestCheck(t *testing.T) {
 		for n := range trees {
 			tn = append(tn, n)
 		}
+		sort.Strings(tn) // (a run is a function of the seed, not of map order)
 		// bounded-exhaustive: every instance once from every start tree, through ro and through ro.Sub("/w")
 		idx := 0
 		views := []string{""}
